@@ -852,6 +852,22 @@ def gen_c06(tier, seed):
             regs[12] = STK
             ops = setup_ops(regs, [(tgt, sub)], main, site) + ['k:3e8', 'st', 'gr', 'rw:%x' % STK, 'st', 'st', 'gr']
             g.add(ops, 'bsb-displacement')
+    # CALL / JSB whose operands are computed from %sp, %pc or through words on the stack (the linkage words are written and
+    # %sp moves while the instruction runs), and CALL / JSB whose target cannot be resolved
+    import asm as _asm
+    for opnd_t in (_asm.bdisp(12, 0xf8), _asm.bdisp(12, 0x40), bdispdef(12, 0xf8), bdispdef(12, 0xfc), regdef(12), _asm.bdisp(15, 0x20),
+                   _asm.hdisp(15, 0x100), bdispdef(15, 0x10), absdef(STK - 8), absdef(0x300000), absa(0x300000), wdisp(12, 0x100)):
+        for opnd_a in (_asm.bdisp(12, 0xfc), regdef(12), _asm.bdisp(12, 0xf8), absa(STK - 0x20)):
+            for _ in range(1 if tier == 'quick' else 6):
+                regs = rnd_regs(r, psw_of(r.choice(allflags())))
+                regs[12] = STK
+                mem = [(STK - 0x10, be(0x700400, 4) + be(0x700500, 4) + be(0x700600, 4) + be(0x700700, 4)),
+                       (0x700110, be(0x700800, 4) * 4)]
+                g.add(setup_ops(regs, mem, ins(OP['CALL'], opnd_a, opnd_t) + [0x70] * 4) + ['st', 'gr', 'rw:%x' % STK, 'rw:%x' % (STK + 4)], 'call-operands')
+        regs = rnd_regs(r, psw_of(r.choice(allflags())))
+        regs[12] = STK
+        mem = [(STK - 0x10, be(0x700400, 4) + be(0x700500, 4) + be(0x700600, 4) + be(0x700700, 4)), (0x700110, be(0x700800, 4) * 4)]
+        g.add(setup_ops(regs, mem, ins(OP['JSB'], opnd_t) + [0x70] * 4) + ['st', 'gr', 'rw:%x' % STK], 'jsb-operands')
     # single instructions at the edges of RAM and with odd pointers (faults are compared with the model)
     for _ in range(200 if tier == 'quick' else 4000):
         psw = psw_of(r.choice(allflags()))
@@ -1543,6 +1559,16 @@ def gen_c12(tier, seed):
             else:
                 ops.append(r.choice(['qa:%x' % r.randrange(256), 'qb:%x' % r.randrange(256), 't:%x' % r.randrange(1 << 30), 'sv', 'gi', 'md:1', 'mu:1']))
         g.add(ops + ['ds'], 'duart-register-history')
+    # the longest legal encodings (four operands of six bytes: prefix, descriptor, four constant bytes) and one byte more
+    for o in (0xc8, 0xca, 0xcb, 0xcc, 0xce, 0xcf):
+        for nops in (4, 5):
+            for _ in range(2 if tier == 'quick' else 40):
+                code = [o]
+                for _k in range(nops):
+                    code += [0xe0 | r.choice([0, 2, 3, 4, 6, 7]), r.choice([0x4f, 0x7f, 0xef, 0x80 | r.randrange(11), 0x90 | r.randrange(11)])] + [r.randrange(256) for _b in range(4)]
+                regs = hostile_regs()
+                ops = ['ld:%x:%s' % (PC0, hexs(code + [0x70] * 4))] + ['r:%x:%x' % (i2, regs[i2]) for i2 in sorted(regs)] + ['r:f:%x' % PC0, 'dc', 'st']
+                g.add(ops, 'longest-encoding')
     # structured DUART receive / transmit histories (the C08 / C09 generators: bursts of arrivals, paced service, gated
     # reads, fill levels up to FIFO + holding register + overrun, resets): none may panic
     import cases as _cases
